@@ -197,8 +197,12 @@ func genWorld(r *vf.Rng) Case {
 		c.Parent = uint64(10 + r.Intn(300))
 	}
 	c.HNum = c.Parent + 1
-	if r.Chance(5) {
-		c.HNum = c.Parent + uint64(r.Intn(4))
+	if r.Chance(12) { // the local head is not the block's parent (side chain, re-execution): must not matter
+		h := r.Pick([]uint64{c.Parent + 1, c.Parent + 2, c.Parent + 7, c.Parent - 1, 0, c.Parent + 300})
+		if h > c.Parent+1000 {
+			h = 0
+		}
+		c.Head = &h
 	}
 	// headers: the ones the protocol needs for rounds around the parent, each
 	// neighbouring number pointing at another set so that an off-by-one look-back
@@ -544,6 +548,9 @@ func nontrivial(c *Case) bool {
 
 func classify(c *Case, res *vf.Result) {
 	res.Count("mode_" + c.Mode)
+	if c.Head != nil && *c.Head != c.Parent && (c.Mode == "build" || c.Mode == "replay") {
+		res.Count("local_head_is_not_the_parent")
+	}
 	o := &c.Obs
 	switch c.Mode {
 	case "voter":
@@ -1191,7 +1198,7 @@ func caseCoq(c *Case, fx Fixes) string {
 	return fmt.Sprintf("mkCase (mkFix %s %s) (mkCfg %s %s %s %s %s %s %s) (mkChain %s %s) %s %s %s %s %s %s",
 		vf.Bool(fx.Distinct), vf.Bool(fx.Zero),
 		nN(c.Cfg.Fraction), nN(c.Cfg.Expel), nN(c.Cfg.MaxExpired), nN(c.Cfg.StakeLB), nN(2*params.ACoCHTFrequency), zS(params.StakeUint.String()), nN(uint64(params.CommissionRateBase)),
-		vf.List(hs), vf.List(sets), vf.List(valid), nN(c.Parent), nN(c.HNum), beforeState(c), mode, obs)
+		vf.List(hs), vf.List(sets), vf.List(valid), nN(headOf(c)), nN(c.HNum), beforeState(c), mode, obs)
 }
 
 func orZero(s string) string {
@@ -1211,6 +1218,9 @@ func paramsTable(out string) {
 	// the vote-kind numbering is declared twice: consensus/ucon (what voters and the detector use) and staking (what the evidence check reads)
 	sb.WriteString(fmt.Sprintf("Definition real_kinds_ucon : list N := [%d%%N; %d%%N; %d%%N; %d%%N].\n", ucon.Prevote, ucon.Precommit, ucon.NextIndex, ucon.Certificate))
 	sb.WriteString(fmt.Sprintf("Definition real_kinds_staking : list N := [%d%%N; %d%%N; %d%%N; %d%%N].\n", staking.Prevote, staking.Precommit, staking.NextIndex, staking.Certificate))
+	// which of the two repairs (0c3d6f7 two different hashes, e1d256e zero-penalty evidence confirmed) the tree contains
+	fx := probeFixes()
+	sb.WriteString(fmt.Sprintf("Definition real_fx_distinct : bool := %s.\nDefinition real_fx_zero : bool := %s.\n", vf.Bool(fx.Distinct), vf.Bool(fx.Zero)))
 	var fr []string
 	for _, id := range []uint64{params.MainNetId, params.TestNetId, params.NetworkIdForTestCase} {
 		params.InitNetworkId(id)
